@@ -48,6 +48,13 @@ func helper(x) {
     let y := x * 2
     return y / 2
 }
+func tag(v, box=[0, 0]) {
+    let old := box[0]
+    box[0] := v
+    box[1] := box[1] + 1
+    let w := helper(v)
+    return old + box[0] + box[1] - 1
+}
 func bump(x) {
     mutex totalmutex {
         total := total + x
@@ -63,7 +70,7 @@ sink s1
             bump(i)
             helper(i)
         }
-        verif.echo(event.state.id, helper(bump(id)))
+        verif.echo(event.state.id, tag(helper(bump(id))))
         if event.state.fail {
             raise(event.state.type, event.state.detail, event.state.data)
         }
@@ -73,7 +80,7 @@ sink s3
     priority 0
     {
         let id := event.state.id
-        verif.echo(event.state.id, helper(id))
+        verif.echo(event.state.id, tag(helper(id)))
         if event.state.boom {
             let l := [1]
             let z := l[5]
@@ -85,7 +92,7 @@ sink s2
     priority 0
     {
         let id := event.state.id
-        verif.echo(event.state.id, helper(id))
+        verif.echo(event.state.id, tag(helper(id)))
         if event.state.fail {
             raise(event.state.type, event.state.detail, event.state.data)
         }
@@ -461,6 +468,11 @@ func C11(r *ev.Run) {
 		c11CheckTotal(r, cr, evs, "free")
 		addRun(evs, []string{fmt.Sprintf("free/w%d", w)})
 	}
+
+	// the failures of one cascade whose monitors are created by all workers at the same time (ECAL level, judged by
+	// the reference evaluation of EcalWait_Trace): none is lost, each belongs to its own event
+	verifhook.Set(func(string, ...interface{}) {})
+	c11StormPhase(r, pick(tier, 40, 400))
 
 	bad, ok := validateTrace(r, "SinkInvoke_Trace", "SinkInvoke_Trace.cfg", trace, 10*time.Minute)
 	if !ok {
